@@ -777,7 +777,41 @@ class Emitter:
             if l.kind == "call":
                 o.append(f"def {lean_name}.call_{l.ordinal} {cb} : Call R :=\n  {l.payload}\n")
         o.append(f"def {lean_name} {binders} : Outcome R :=\n  {render2(tree, lean_name, ca)}\n")
+        # elimination principle: a `.call t cl` outcome comes from exactly one leaf, whose guard then holds
+        calls = [l for l in sorted(real, key=lambda l: l.ordinal) if l.kind == "call"]
+        recs = [l for l in leaves if l.kind == "rec" and not l.payload.startswith(".throw")]
+        imp = binders.replace("(", "{").replace(")", "}").replace("{R : Type} [CRing R]", "{R : Type} [CRing R]")
+        gargs = " ".join(y for x in re.findall(r"\((\w[\w ]*?) :", guard_binders or binders_guard(cb)) for y in x.split())
+        fargs = " ".join(y for x in re.findall(r"[({](\w[\w ]*?) :", binders)[1:] for y in x.split())
+        hyps = "".join(f"\n    (h{l.ordinal} : {lean_name}.guard_{l.ordinal} {gargs} → P {l.ordinal} ({lean_name}.call_{l.ordinal} {ca}))" for l in calls)
+        for n, l in enumerate(recs):
+            hyps += f"\n    (hrec{n} : {l.payload} = Outcome.call t cl → P t cl)"
+        self.counter = 0
+        proof = self.elim_proof(tree, [], "  ", recs)
+        o.append(f"/-- case analysis principle for `{lean_name}` (generated, checked by Lean) -/\n"
+                 f"theorem {lean_name}.elim {imp} {{t : Nat}} {{cl : Call R}}\n"
+                 f"    (h : {lean_name} {fargs} = .call t cl) (P : Nat → Call R → Prop){hyps} : P t cl := by\n"
+                 f"  unfold {lean_name} at h\n{proof}\n")
         return real
+
+    def elim_proof(self, t, hs, ind, recs):
+        """structured proof following the decision tree; hs = names of the hypotheses that make up the guard so far"""
+        if t[0] == "TXT":
+            return f"{ind}cases h"
+        if t[0] == "IF":
+            self.counter += 1
+            hn = f"c{self.counter}"
+            is_pre = t[1].startswith("¬ nd = true ∧") or t[1] == "nd = true"
+            a = self.elim_proof(t[2], hs if is_pre else hs + [hn], ind + "  ", recs)
+            b = self.elim_proof(t[3], hs if is_pre else hs + [hn], ind + "  ", recs)
+            return (f"{ind}by_cases {hn} : {t[1]}\n{ind}· rw [if_pos {hn}] at h\n{a}\n{ind}· rw [if_neg {hn}] at h\n{b}")
+        lf = t[1]
+        if lf.kind == "call":
+            g = "⟨" + ", ".join(hs) + "⟩" if len(hs) > 1 else (hs[0] if hs else "trivial")
+            return f"{ind}injection h with ht hc; subst ht; subst hc; exact h{lf.ordinal} {g}"
+        if lf.kind == "rec" and lf in recs:
+            return f"{ind}exact hrec{recs.index(lf)} h"
+        return f"{ind}cases h"
 
 
 def binders_guard(b):
